@@ -160,6 +160,8 @@ pub enum NodeKind {
         pos: usize,
         /// C17: yields an item on every poll, forever
         always: bool,
+        /// streams: report an exact size_hint
+        hint: bool,
     },
     Comb {
         family: Family,
@@ -185,6 +187,8 @@ pub struct NodeRec {
     pub key: Option<usize>,
     /// sum of all waker fires seen at the end of the previous poll (S oracle)
     pub fire_snapshot: u64,
+    /// clock at which the drop of this (combinator) node began
+    pub drop_begin: Option<u32>,
     /// "work" futures of concurrent streams: item index they process
     pub item: Option<usize>,
     pub created_at: u32,
@@ -577,6 +581,7 @@ impl World {
             removed_at: None,
             key: None,
             fire_snapshot: 0,
+            drop_begin: None,
             item: None,
             created_at,
         });
@@ -745,6 +750,33 @@ impl World {
     }
 }
 
+/// `size_hint` of a scripted stream: exact when the leaf was told to give a
+/// hint and its remaining script is finite, `(0, None)` otherwise.
+pub fn leaf_size_hint(id: NodeId) -> (usize, Option<usize>) {
+    try_with(|w| match w.nodes.get(id).map(|n| &n.kind) {
+        Some(NodeKind::Leaf { script, pos, always, hint, .. }) => {
+            if *always || !*hint {
+                return (0, None);
+            }
+            let rest = &script[(*pos).min(script.len())..];
+            if rest.iter().any(|s| matches!(s, Step::Never | Step::Panic)) {
+                return (0, None);
+            }
+            let mut n = 0;
+            for s in rest {
+                match s {
+                    Step::Yield(_) => n += 1,
+                    Step::End => break,
+                    _ => {}
+                }
+            }
+            (n, Some(n))
+        }
+        _ => (0, None),
+    })
+    .unwrap_or((0, None))
+}
+
 pub const RUNAWAY: u32 = 20_000;
 
 /// Panic payload used to abort a runaway case (child polled > RUNAWAY times in
@@ -780,7 +812,7 @@ pub fn leaf_poll(id: NodeId, cx: &mut Context<'_>) -> LeafOut {
         let finished = w.nodes[id].finished_at.is_some();
         let n = &mut w.nodes[id];
         let (step, flavor) = match &mut n.kind {
-            NodeKind::Leaf { script, pos, always, flavor } => {
+            NodeKind::Leaf { script, pos, always, flavor, .. } => {
                 if *always {
                     (Step::Yield(true), *flavor)
                 } else if finished {
@@ -982,6 +1014,18 @@ pub fn panic_msg(e: &Box<dyn std::any::Any + Send>) -> String {
     } else {
         "<non-string payload>".into()
     }
+}
+
+/// The drop of a combinator node is about to begin (its children go first).
+pub fn node_drop_begin(id: NodeId) {
+    let _ = try_with(|w| {
+        let now = w.tick();
+        if let Some(n) = w.nodes.get_mut(id) {
+            if n.drop_begin.is_none() {
+                n.drop_begin = Some(now);
+            }
+        }
+    });
 }
 
 pub fn node_dropped(id: NodeId) {
